@@ -19,6 +19,12 @@ from .ctx import Ctx, jdump
 
 OUT = os.path.join(HOME, "out")
 EVID = os.path.join(HOME, "evidence")
+if os.path.realpath(REPO) != "/repo":
+    # a trial against another tree (a scratch worktree with a seeded change, a pre-fix commit): its work files, replay files and
+    # evidence go to a directory of their own, so that it neither collides with a run against /repo nor overwrites its evidence
+    OUT = os.path.join(HOME, "out", "alt-" + os.path.realpath(REPO).strip("/").replace("/", "_"))
+    EVID = os.path.join(OUT, "evidence")
+    os.makedirs(EVID, exist_ok=True)
 
 
 def load_check(pid):
